@@ -101,6 +101,10 @@ class ThreadWorker(Worker):
 
     def _get_result(self):
         # _result is set by the child directly
+        if self._result is None and self._started and not self.is_alive():
+            # the child died without recording an outcome (e.g. an asynchronous
+            # exception landed outside of the try block or inside its handler)
+            self._result = (False, None)
         return self._result
 
     #
